@@ -32,7 +32,7 @@ def make_frame(r, n, dup, tail_missing=0):
     return GeoDataFrame({"a": list(range(n)), "geometry": geo.make_array("point", pts, "float64"), "ln": geo.make_array("line", lines, "float64")})
 
 
-def run_case(chk, r, root, n, in_parts, npart, mode, comp, prior, dup, tag, tail_missing=0):
+def run_case(chk, r, root, n, in_parts, npart, mode, comp, prior, dup, tag, tail_missing=0, p=6):
     import dask
     import dask.dataframe as dd
     from spatialpandas.io import read_parquet_dask
@@ -42,7 +42,7 @@ def run_case(chk, r, root, n, in_parts, npart, mode, comp, prior, dup, tag, tail
     path = os.path.join(work, "out.parq")
     fs = packfs.WrapFS()
     rep = dict(api="pack_partitions_to_parquet", n=n, input_partitions=in_parts, npartitions=npart, tempdir=mode, compression=comp,
-               prior_dataset=prior, duplicates=dup, all_missing_last_input_partition=bool(tail_missing), points=geo.to_elements(df["geometry"].array))
+               prior_dataset=prior, duplicates=dup, all_missing_last_input_partition=bool(tail_missing), p=p, points=geo.to_elements(df["geometry"].array))
     try:
         if prior:
             pn = {"smaller": max(1, npart - 1), "larger": npart + 3}[prior]
@@ -53,7 +53,7 @@ def run_case(chk, r, root, n, in_parts, npart, mode, comp, prior, dup, tag, tail
         for d in ("scratch_u", "scratch_p", "out.parq.scratch_s"):
             os.makedirs(os.path.join(work, d), exist_ok=True)      # the user's scratch area exists beforehand
         try:
-            out = ddf.pack_partitions_to_parquet(path, filesystem=fs, npartitions=npart, p=6, compression=comp, tempdir_format=tf,
+            out = ddf.pack_partitions_to_parquet(path, filesystem=fs, npartitions=npart, p=p, compression=comp, tempdir_format=tf,
                                                  overwrite=bool(prior))
             returned = out.compute()
         except Exception as e:  # noqa: BLE001
@@ -80,7 +80,7 @@ def run_case(chk, r, root, n, in_parts, npart, mode, comp, prior, dup, tag, tail
             chk.violation(f"pack_to_parquet/leftover-outside-dataset/{mode}", dict(rep, leftovers=[f"{k}:{p}" for k, p in outside][:10]), size=n); return
         # rows
         tb = list(df["geometry"].array.total_bounds)
-        h = [int(x) for x in df["geometry"].array.hilbert_distance(total_bounds=tb, p=6)]
+        h = [int(x) for x in df["geometry"].array.hilbert_distance(total_bounds=tb, p=p)]
         want = sorted(packfs.rows_of(df.set_index(np.asarray(h))))
         indep = read_parquet_dask(path)
         parts = list(dask.compute(*indep.to_delayed(), scheduler="synchronous"))
@@ -181,6 +181,9 @@ def run_cases(chk, tier):
         for npart in (2, 5) if tier == "quick" else (1, 2, 3, 5, 8, 13):
             for dup in (False, True):
                 run_case(chk, r, root, 6 if dup else r.choice((1, 2, 3)), 1, npart, "outside-sibling", "snappy", (None, "larger")[npart % 2], dup, "sibling")
+        # large curve orders (distances beyond 32 bits): still Hilbert ordered with the right index
+        for p_ in (17, 24, 31) if tier == "quick" else (16, 17, 20, 24, 28, 31):
+            run_case(chk, r, root, 12, 2, 3, ("inside", "outside-uuid")[p_ % 2], "snappy", None, False, "large-p", p=p_)
         # the {uuid} field as a part of a directory name, further directories below it
         for npart in (2, 4) if tier == "quick" else (1, 2, 3, 4, 7):
             run_case(chk, r, root, 6, 2, npart, "outside-uuid-suffix", None, (None, "smaller")[npart % 2], npart % 2 == 0, "uuid-suffix")
